@@ -10,10 +10,15 @@ for l in open(os.path.join(HERE, 'properties.jsonl')):
     mu = os.path.join(HERE, 'mutants', pid + '.json')
     nm = len(json.load(open(mu))) if os.path.exists(mu) else 0
     seeds = sorted(glob.glob(os.path.join(HERE, 'seeded', pid + '-*', 'meta.json')))
-    caught = sum(1 for s in seeds if json.load(open(s)).get('verification', {}).get('caught'))
+    caught = 0
+    for sd in seeds:
+        name = os.path.basename(os.path.dirname(sd))
+        res = [json.load(open(r)) for r in sorted(glob.glob(os.path.join(HERE, 'seeded', 'results', name + '*.json'))) if os.path.basename(r)[len(name):] in ('.json',) or os.path.basename(r)[len(name)].isalpha()]
+        res = [r for r in res if r.get('patch_applies') is True]      # evaluations on a tree the patch still applied to; the latest one counts
+        caught += bool(res and res[-1].get('caught'))
     subs = e['coverage']['subchecks'] if e else {}
     sub_txt = ', '.join('%s %i/%i%s' % (k, v['evaluations'], v['distinct_nontrivial'], '*' if v['exhaustive'] else '') for k, v in subs.items())
     rows.append('| %s | %s | %s | %i | %i of %i |' % (pid, sub_txt, ('%.0f s' % e['wall_s']) if e else '-', nm, caught, len(seeds)))
-print('| property | sub-checks: evaluations / distinct non-trivial in the committed quick run (* = exhaustive enumeration) | quick wall | hand-written mutants (all caught) | independent seeded changes caught by the current quick check |')
+print('| property | sub-checks: evaluations / distinct non-trivial in the committed quick run (* = exhaustive enumeration) | quick wall | hand-written mutants | independent seeded changes caught at their latest evaluation |')
 print('|---|---|---|---|---|')
 print('\n'.join(rows))
